@@ -1,13 +1,18 @@
-import RsMatterVerif.Model.Acl
+import RsMatterVerif.Model.AclOps
 import Driver.Util
-/-! Driver for C05: replays configuration + query lines on `Model/Acl` (DIS = the model answers
+/-! Driver for C05 (first-generation ops `fab` … `reload` run the functions of `Model/Acl.lean`; the
+history ops `faba`, `hw`, `ainit`, … , `dump`, `sq`, `sr` are parsed into an `Acl.CfgOp` and executed by
+`Acl.CfgOp.apply` — the function the history theorems of `Props/C05Ops` are about — with every
+answer and the canonical dump of the whole fabric table compared).
+Driver for C05: replays configuration + query lines on `Model/Acl` (DIS = the model answers
 differently from the real `AccessReq::allow`) and evaluates the declarative specification
 `Acl.grantedB` / `Acl.reachesB` on the same inputs against the implementation's decision (ORA). -/
 namespace Driver.C05
 open Acl
 
-structure St where
-  fabrics : List Fabric := []
+/-- the fabric table (`fabrics`, also read by the C06 driver) and the fabric records of the
+key-value store (`store`): `Acl.Cfg` -/
+structure St extends Cfg
 
 def modeOf (s : String) : Option (Option AuthMode) :=
   if s = "p" then some (some .pase) else if s = "c" then some (some .case)
@@ -29,8 +34,9 @@ def parseTarget (s : String) : Option Target :=
 
 /-- `build_entry` of the harness: `AclEntry::new` + `add_subject`* + `add_target`*;
 outer `none` = unparsable, inner `none` = the API refused (capacity). -/
-def buildEntry (pb : Nat) (mode : AuthMode) (subjects targets : String) : Option (Option Entry) := do
-  let e0 : Entry := { privilege := pb, authMode := mode, subjects := none, targets := none, fabIdx := none }
+def buildEntry (pb : Nat) (mode : AuthMode) (subjects targets : String) (stamp : Option Nat := none) :
+    Option (Option Entry) := do
+  let e0 : Entry := { privilege := pb, authMode := mode, subjects := none, targets := none, fabIdx := stamp }
   let e1 : Option Entry ←
     if subjects = "null" then pure (some e0)
     else if subjects = "e" then pure (some { e0 with subjects := some [] })
@@ -51,6 +57,100 @@ def bits (l : List Bool) : String :=
 
 def canonicalPriv (b : Nat) : Bool := (privOfBits b).isSome
 
+/-- `-` = absent -/
+def optField (s : String) : Option (Option Nat) := if s = "-" then some none else s.toNat?.map some
+
+/-- a wire entry `<priv|->~<auth|->~<subjects>~<targets>~<aux|->` -/
+def parseWire (s : String) : Option EntryIn :=
+  match s.splitOn "~" with
+  | [p, a, ss, ts, x] => do
+    let p ← optField p
+    let a ← optField a
+    let x ← optField x
+    let ss : Option (Option (List Nat)) ←
+      if ss = "-" then pure none else if ss = "null" then pure (some none) else if ss = "e" then pure (some (some []))
+      else ((ss.splitOn ",").mapM (fun (x : String) => x.toNat?)).map (fun l => some (some l))
+    let ts : Option (Option (List Target)) ←
+      if ts = "-" then pure none else if ts = "null" then pure (some none) else if ts = "e" then pure (some (some []))
+      else ((ts.splitOn ";").mapM parseTarget).map (fun l => some (some l))
+    pure { privilege := p, authMode := a, subjects := ss, targets := ts, auxiliaryType := x }
+  | _ => none
+
+def fabOk (fab : Nat) : Bool := decide (1 ≤ fab) && decide (fab ≤ 255)
+
+/-- the initializer of an `acli` / `aclui` line -/
+def parseInit (ws : List String) : Option EntryInit :=
+  match ws with
+  | ["r", stamp, pb, mode, subjects, targets] =>
+    match optNum stamp, pb.toNat?, modeOf mode with
+    | some stamp, some pb, some (some mode) =>
+      match buildEntry pb mode subjects targets stamp with
+      | none => none
+      | some none => some (.fails .resourceExhausted)
+      | some (some e) => some (.raw e)
+    | _, _, _ => none
+  | ["t", ifab, wire] =>
+    match ifab.toNat?, parseWire wire with
+    | some ifab, some w => if fabOk ifab then some (.wire ifab w) else none
+    | _, _ => none
+  | _ => none
+
+def showEntry (e : Entry) : String :=
+  let subj := match e.subjects with
+    | none => "null"
+    | some [] => "e"
+    | some l => ",".intercalate (l.map toString)
+  let showOpt (o : Option Nat) : String := match o with | some v => toString v | none => "-"
+  let targ := match e.targets with
+    | none => "null"
+    | some [] => "e"
+    | some l => "+".intercalate (l.map (fun (t : Target) => s!"{showOpt t.endpoint}/{showOpt t.cluster}/{showOpt t.deviceType}"))
+  let m := match e.authMode with | .pase => "p" | .case => "c" | .group => "g"
+  s!"{e.privilege}.{m}.{subj}.{targ}.{showOpt e.fabIdx}"
+
+def showGroup (x : GroupMapping) : String :=
+  let eps := if x.endpoints.isEmpty then "-" else ",".intercalate (x.endpoints.map toString)
+  let aux := match x.hasAuxAcl with | none => "n" | some false => "0" | some true => "1"
+  s!"{x.groupId}:{eps}:{aux}:{if x.managed then 1 else 0}"
+
+/-- the canonical text of the fabric table (`c05_ops::dump` of the harness) -/
+def showTable (s : List Fabric) : String :=
+  if s.isEmpty then "-"
+  else " ".intercalate (s.map (fun f =>
+    "F" ++ toString f.fabIdx ++ "{" ++ ";".intercalate (f.acl.map showEntry) ++ "|" ++
+      ";".intercalate (f.groups.map showGroup) ++ "}"))
+
+/-- `Display for AccessorSubjects` with the blanks removed -/
+def showSubjects (l : List Nat) : String :=
+  "[" ++ String.join (l.map (fun i =>
+    if isNocCat i then s!"CAT({getNocCatId i}-{getNocCatVersion i})"
+    else if i != 0 then s!"{i}," else "")) ++ "]"
+
+/-- run a mutator and compare its answer; `render` turns the model's answer into the harness's text -/
+def runOp (st : St) (o : CfgOp) (out : String) (render : Res → String) : St × String :=
+  let r := o.apply st.toCfg
+  let m := render r.2
+  ({ toCfg := r.1 }, if m = out then "ok" else s!"DIS {m}")
+
+def renderStd (yes no : String) : Res → String
+  | .ok => "ok"
+  | .idx n => toString n
+  | .flag b => if b then yes else no
+  | .err e => e.name
+  | .panic => "panic"
+
+/-- the outputs of the first-generation ops: every error is `err` -/
+def renderOld (yes no : String) : Res → String
+  | .err _ => "err"
+  | r => renderStd yes no r
+
+def allowLine (st : St) (acc : Accessor) (ep cl leaf : Option Nat) (opb : Nat) (perms : Option Nat)
+    (dts : List Nat) : AccessReq :=
+  let _ := st
+  { accessor := acc, object := {
+      path := { endpoint := ep, cluster := cl, leaf := leaf }, targetPerms := perms,
+      operation := opb, deviceTypes := dts } }
+
 def step (st : St) (line : String) : St × String :=
   let (op, out) := splitArrow line
   match words op with
@@ -62,16 +162,108 @@ def step (st : St) (line : String) : St × String :=
     let theirs := [f, a, s, t, g, e, c].map (fun x => x.toNat?.getD 0)
     if out ≠ "ok" then (st, s!"BAD harness built with other capacities: {out}")
     else if mine = theirs then (st, "ok") else (st, s!"DIS caps {mine}")
+  | ["enums", v, p, o, m, a, pp, cc, gg] =>
+    -- the wire values `privOfEnum` / `authOfEnum` / `privToEnum` assume
+    let ok := privOfEnum (v.toNat?.getD 0) = some PRIV_VIEW && privOfEnum (p.toNat?.getD 0) = some PRIV_PROXYVIEW
+      && privOfEnum (o.toNat?.getD 0) = some PRIV_OPERATE && privOfEnum (m.toNat?.getD 0) = some PRIV_MANAGE
+      && privOfEnum (a.toNat?.getD 0) = some PRIV_ADMIN && authOfEnum (pp.toNat?.getD 0) = some AuthMode.pase
+      && authOfEnum (cc.toNat?.getD 0) = some AuthMode.case && authOfEnum (gg.toNat?.getD 0) = some AuthMode.group
+    if out ≠ "ok" then (st, s!"BAD harness built with other enumeration values: {out}")
+    else if ok then (st, "ok") else (st, "DIS enums")
+  | ["dump"] =>
+    let m := showTable st.fabrics
+    if m = out then (st, "ok") else (st, s!"DIS {m}")
+  | ["aupd", fab, idx, pb, mode, subjects, targets] =>
+    match fab.toNat?, idx.toNat?, pb.toNat?, modeOf mode with
+    | some fab, some idx, some pb, some (some mode) =>
+      match buildEntry pb mode subjects targets with
+      | some (some e) => if fabOk fab then runOp st (.aclUpdate fab idx e) out (renderStd "yes" "no") else (st, "BAD fab")
+      | _ => (st, "BAD entry")
+    | _, _, _, _ => (st, "BAD aupd")
+  | "ainit" :: fab :: rest =>
+    match fab.toNat?, parseInit rest with
+    | some fab, some ini => if fabOk fab then runOp st (.aclAddInit fab ini) out (renderStd "yes" "no") else (st, "BAD fab")
+    | _, _ => (st, "BAD ainit")
+  | "uinit" :: fab :: idx :: rest =>
+    match fab.toNat?, idx.toNat?, parseInit rest with
+    | some fab, some idx, some ini =>
+      if fabOk fab then runOp st (.aclUpdateInit fab idx ini) out (renderStd "yes" "no") else (st, "BAD fab")
+    | _, _, _ => (st, "BAD uinit")
+  | ["arm", fab, idx] =>
+    match fab.toNat?, idx.toNat? with
+    | some fab, some idx => if fabOk fab then runOp st (.aclRemove fab idx) out (renderStd "yes" "no") else (st, "BAD fab")
+    | _, _ => (st, "BAD arm")
+  | ["aclr", fab] =>
+    match fab.toNat? with
+    | some fab => if fabOk fab then runOp st (.aclRemoveAll fab) out (renderStd "yes" "no") else (st, "BAD fab")
+    | none => (st, "BAD aclr")
+  | "hw" :: fab :: rest =>
+    let w : Option AclWrite := match rest with
+      | ["replace", l] => if l = "-" then some (.replace []) else ((l.splitOn "|").mapM parseWire).map .replace
+      | ["add", e] => (parseWire e).map .add
+      | ["upd", idx, e] => match idx.toNat?, parseWire e with
+        | some idx, some e => some (.update idx e)
+        | _, _ => none
+      | ["rm", idx] => idx.toNat?.map .remove
+      | _ => none
+    match fab.toNat?, w with
+    | some fab, some w => if fabOk fab then runOp st (.handlerWrite fab w) out (renderStd "yes" "no") else (st, "BAD fab")
+    | _, _ => (st, "BAD hw")
+  | ["gadd", fab, gid, ep] =>
+    match fab.toNat?, gid.toNat?, ep.toNat? with
+    | some fab, some gid, some ep =>
+      if fabOk fab && decide (gid ≤ 65535) && decide (ep ≤ 65535) then runOp st (.grpAdd fab ep gid) out (renderStd "member" "new")
+      else (st, "BAD range")
+    | _, _, _ => (st, "BAD gadd")
+  | ["grm", fab, ep, gid] =>
+    match fab.toNat?, ep.toNat?, optNum gid with
+    | some fab, some ep, some gid =>
+      if fabOk fab && decide (ep ≤ 65535) then runOp st (.grpRemove fab ep gid) out (renderStd "yes" "no") else (st, "BAD range")
+    | _, _, _ => (st, "BAD grm")
+  | ["join", fab, gid, eps, replace, _policy] =>
+    match fab.toNat?, gid.toNat?, natList eps with
+    | some fab, some gid, some eps =>
+      if fabOk fab && decide (gid ≤ 65535) then runOp st (.grpJoin fab gid eps (replace = "1")) out (renderStd "yes" "no")
+      else (st, "BAD range")
+    | _, _, _ => (st, "BAD join")
+  | ["gcrm", fab, gid] =>
+    match fab.toNat?, gid.toNat? with
+    | some fab, some gid =>
+      if fabOk fab && decide (gid ≤ 65535) then runOp st (.grpCastRemove fab gid) out (renderStd "yes" "no") else (st, "BAD range")
+    | _, _ => (st, "BAD gcrm")
+  | ["gauxr", fab, gid, v] =>
+    match fab.toNat?, gid.toNat? with
+    | some fab, some gid =>
+      if fabOk fab && decide (gid ≤ 65535) then runOp st (.grpSetAux fab gid (v = "1")) out (renderStd "yes" "no") else (st, "BAD range")
+    | _, _ => (st, "BAD gauxr")
+  | ["st", fab] =>
+    match fab.toNat? with
+    | some fab => if fabOk fab then runOp st (.persistStore fab) out (renderStd "yes" "no") else (st, "BAD fab")
+    | none => (st, "BAD st")
+  | ["strm", fab] =>
+    match fab.toNat? with
+    | some fab => if fabOk fab then runOp st (.persistRemove fab) out (renderStd "yes" "no") else (st, "BAD fab")
+    | none => (st, "BAD strm")
+  | ["faba", subject] =>
+    match subject.toNat? with
+    | some subject => runOp st (.fabAdd (some subject)) out (renderStd "yes" "no")
+    | none => (st, "BAD faba")
+  | ["wipe"] => runOp st .resetPersist out (renderStd "yes" "no")
+  | ["load"] => runOp st .loadPersist out (renderStd "yes" "no")
+  | ["rollback", fab] =>
+    match fab.toNat? with
+    | some fab => if fabOk fab then runOp st (.reload fab) out (renderStd "yes" "no") else (st, "BAD fab")
+    | none => (st, "BAD rollback")
   | ["fab"] =>
     match fabricsAdd st.fabrics with
-    | some (fs, i) => if out = toString i then ({ fabrics := fs }, "ok") else ({ fabrics := fs }, s!"DIS {i}")
+    | some (fs, i) => if out = toString i then ({ st with fabrics := fs }, "ok") else ({ st with fabrics := fs }, s!"DIS {i}")
     | none => if out = "err" then (st, "ok") else (st, "DIS err")
   | ["rmfab", i] =>
     match i.toNat? with
     | none => (st, "BAD num")
     | some i =>
       match (if i = 0 ∨ i > 255 then none else fabricsRemove st.fabrics i) with
-      | some fs => if out = "ok" then ({ fabrics := fs }, "ok") else ({ fabrics := fs }, "DIS ok")
+      | some fs => if out = "ok" then ({ st with fabrics := fs }, "ok") else ({ st with fabrics := fs }, "DIS ok")
       | none => if out = "err" then (st, "ok") else (st, "DIS err")
   | ["acl", fab, pb, mode, subjects, targets] =>
     match fab.toNat?, pb.toNat?, modeOf mode with
@@ -83,7 +275,7 @@ def step (st : St) (line : String) : St × String :=
         let r : Option (List Fabric × Nat) :=
           if fab = 0 ∨ fab > 255 then none else fabricsAclAdd st.fabrics fab e
         match r with
-        | some (fs, i) => if out = toString i then ({ fabrics := fs }, "ok") else ({ fabrics := fs }, s!"DIS {i}")
+        | some (fs, i) => if out = toString i then ({ st with fabrics := fs }, "ok") else ({ st with fabrics := fs }, s!"DIS {i}")
         | none => if out = "err" then (st, "ok") else (st, "DIS err")
     | _, _, _ => (st, "BAD acl")
   | ["grp", fab, gid, ep] =>
@@ -93,7 +285,7 @@ def step (st : St) (line : String) : St × String :=
         if fab = 0 ∨ fab > 255 ∨ gid > 65535 ∨ ep > 65535 then none
         else fabricsGroupAdd st.fabrics fab ep gid
       match r with
-      | some fs => if out = "ok" then ({ fabrics := fs }, "ok") else ({ fabrics := fs }, "DIS ok")
+      | some fs => if out = "ok" then ({ st with fabrics := fs }, "ok") else ({ st with fabrics := fs }, "DIS ok")
       | none => if out = "err" then (st, "ok") else (st, "DIS err")
     | _, _, _ => (st, "BAD grp")
   | ["gaux", fab, gid, v] =>
@@ -104,9 +296,98 @@ def step (st : St) (line : String) : St × String :=
       match r with
       | some (fs, ch) =>
         let m := if ch then "changed" else "same"
-        if out = m then ({ fabrics := fs }, "ok") else ({ fabrics := fs }, s!"DIS {m}")
+        if out = m then ({ st with fabrics := fs }, "ok") else ({ st with fabrics := fs }, s!"DIS {m}")
       | none => if out = "err" then (st, "ok") else (st, "DIS err")
     | _, _ => (st, "BAD gaux")
+  | ["acli", fab, pb, mode, subjects, targets] =>
+    match fab.toNat?, pb.toNat?, modeOf mode with
+    | some fab, some pb, some (some mode) =>
+      match buildEntry pb mode subjects targets with
+      | none => (st, "BAD entry")
+      | some none => if out = "err" then (st, "ok") else (st, "DIS err")
+      | some (some e) =>
+        let r : Option (List Fabric × Nat) :=
+          if fab = 0 ∨ fab > 255 then none else fabricsAclAddInit st.fabrics fab e
+        match r with
+        | some (fs, i) => if out = toString i then ({ st with fabrics := fs }, "ok") else ({ st with fabrics := fs }, s!"DIS {i}")
+        | none => if out = "err" then (st, "ok") else (st, "DIS err")
+    | _, _, _ => (st, "BAD acli")
+  | [which, fab, idx, pb, mode, subjects, targets] =>
+    if which ≠ "aclupd" ∧ which ≠ "aclupi" then (st, "BAD op") else
+    match fab.toNat?, idx.toNat?, pb.toNat?, modeOf mode with
+    | some fab, some idx, some pb, some (some mode) =>
+      match buildEntry pb mode subjects targets with
+      | none => (st, "BAD entry")
+      | some none => if out = "err" then (st, "ok") else (st, "DIS err")
+      | some (some e) =>
+        let r : Option (List Fabric) :=
+          if fab = 0 ∨ fab > 255 then none else fabricsAclUpdate st.fabrics fab idx e
+        match r with
+        | some fs => if out = "ok" then ({ st with fabrics := fs }, "ok") else ({ st with fabrics := fs }, "DIS ok")
+        | none => if out = "err" then (st, "ok") else (st, "DIS err")
+    | _, _, _, _ => (st, "BAD aclupd")
+  | ["aclrm", fab, idx] =>
+    match fab.toNat?, idx.toNat? with
+    | some fab, some idx =>
+      let r : Option (List Fabric) := if fab = 0 ∨ fab > 255 then none else fabricsAclRemove st.fabrics fab idx
+      match r with
+      | some fs => if out = "ok" then ({ st with fabrics := fs }, "ok") else ({ st with fabrics := fs }, "DIS ok")
+      | none => if out = "err" then (st, "ok") else (st, "DIS err")
+    | _, _ => (st, "BAD aclrm")
+  | ["aclclr", fab] =>
+    match fab.toNat? with
+    | some fab =>
+      let r : Option (List Fabric) := if fab = 0 ∨ fab > 255 then none else fabricsAclRemoveAll st.fabrics fab
+      match r with
+      | some fs => if out = "ok" then ({ st with fabrics := fs }, "ok") else ({ st with fabrics := fs }, "DIS ok")
+      | none => if out = "err" then (st, "ok") else (st, "DIS err")
+    | none => (st, "BAD aclclr")
+  | ["grprm", fab, ep, gid] =>
+    let gidO : Option (Option Nat) := if gid = "*" then some none else gid.toNat?.map some
+    match fab.toNat?, ep.toNat?, gidO with
+    | some fab, some ep, some gidO =>
+      let gbad : Bool := match gidO with | some g => decide (g > 65535) | none => false
+      let ok : Bool := !(decide (fab = 0) || decide (fab > 255) || decide (ep > 65535) || gbad)
+      match (if ok then fabricsGet st.fabrics fab else none) with
+      | none => if out = "err" then (st, "ok") else (st, "DIS err")
+      | some f =>
+        let r := groupsRemove f.groups ep gidO
+        let fs := (fabricsGroupsMutate st.fabrics fab (fun gs => (groupsRemove gs ep gidO).1)).getD st.fabrics
+        let m := if r.2 then "yes" else "no"
+        if out = m then ({ st with fabrics := fs }, "ok") else ({ st with fabrics := fs }, s!"DIS {m}")
+    | _, _, _ => (st, "BAD grprm")
+  | ["gjoin", fab, gid, eps, replace] =>
+    let epsO : Option (List Nat) :=
+      if eps = "-" then some [] else (eps.splitOn ",").foldr (fun x acc => match x.toNat?, acc with
+        | some v, some l => some (v :: l) | _, _ => none) (some [])
+    match fab.toNat?, gid.toNat?, epsO with
+    | some fab, some gid, some epsL =>
+      let ok : Bool := !(decide (fab = 0) || decide (fab > 255) || decide (gid > 65535) || epsL.any (fun x => decide (x > 65535)))
+      match (if ok then fabricsGet st.fabrics fab else none) with
+      | none => if out = "err" then (st, "ok") else (st, "DIS err")
+      | some f =>
+        let r := groupsGroupcastJoin f.groups gid epsL (replace = "1")
+        let fs := (fabricsGroupsMutate st.fabrics fab (fun gs => (groupsGroupcastJoin gs gid epsL (replace = "1")).1)).getD st.fabrics
+        let m := if r.2 then "ok" else "fail"
+        if out = m then ({ st with fabrics := fs }, "ok") else ({ st with fabrics := fs }, s!"DIS {m}")
+    | _, _, _ => (st, "BAD gjoin")
+  | ["gleave", fab, gid] =>
+    match fab.toNat?, gid.toNat? with
+    | some fab, some gid =>
+      let ok : Bool := !(decide (fab = 0) || decide (fab > 255) || decide (gid > 65535))
+      match (if ok then fabricsGet st.fabrics fab else none) with
+      | none => if out = "err" then (st, "ok") else (st, "DIS err")
+      | some f =>
+        let fs := (fabricsGroupsMutate st.fabrics fab (fun gs => groupsGroupcastRemove gs gid)).getD st.fabrics
+        let m := if f.groups.any (fun e => e.groupId == gid) then "yes" else "no"
+        if out = m then ({ st with fabrics := fs }, "ok") else ({ st with fabrics := fs }, s!"DIS {m}")
+    | _, _ => (st, "BAD gleave")
+  | ["reload"] =>
+    -- only meaningful for tables with the five privileges the Interaction Model can produce (the TLV
+    -- encoding of a raw bit pattern is lossy / panics on the empty one): not a production state
+    if st.fabrics.all (fun f => f.acl.all (fun e => canonicalPriv e.privilege)) then
+      ({ st with fabrics := fabricsReload st.fabrics }, if out = "ok" then "ok" else "DIS ok")
+    else (st, "BAD reload of a table with non-canonical privileges")
   | ["q", fab, mode, aux, id, cats, ep, cl, leaf, opb, perms, dts] =>
     match fab.toNat?, modeOf mode, id.toNat?, natList cats, optNum ep, optNum cl, optNum leaf,
         opb.toNat?, (if perms = "none" then some none else perms.toNat?.map some), natList dts with
@@ -144,6 +425,50 @@ def step (st : St) (line : String) : St × String :=
         (st, s!"ORA spec={if reachesB st.fabrics acc endpoint then "yes" else "no"} impl={out}")
       else if m = impl then (st, "ok") else (st, s!"DIS {if m then "yes" else "no"}")
     | _, _, _, _ => (st, "BAD ep")
+  | ["sq", smode, sfab, peer, cats, gid, aux, ep, cl, leaf, opb, perms, dts] =>
+    match sfab.toNat?, optNum peer, natList cats, gid.toNat?, optNum ep, optNum cl, optNum leaf,
+        opb.toNat?, (if perms = "none" then some none else perms.toNat?.map some), natList dts with
+    | some sfab, some peer, some cats, some gid, some ep, some cl, some leaf, some opb, some perms, some dts =>
+      let mode : Option SessMode :=
+        if smode = "c" then (if fabOk sfab then some (.case sfab cats) else none)
+        else if smode = "p" then some (.pase sfab)
+        else if smode = "g" then (if fabOk sfab then some (.group sfab gid) else none)
+        else if smode = "x" then some .plainText else none
+      match mode with
+      | none => (st, "BAD session")
+      | some mode =>
+        let acc := accessorForSession mode peer (aux = "1")
+        let req := allowLine st acc ep cl leaf opb perms dts
+        let m := allow st.fabrics req
+        let am := match acc.authMode with | some .pase => "p" | some .case => "c" | some .group => "g" | none => "n"
+        let mout := s!"{if m then "allow" else "deny"} {acc.fabIdx} {am} {showSubjects acc.subjects}"
+        let implAllow := out.startsWith "allow"
+        let own := if acc.fabIdx = 0 then none else fabricsGet st.fabrics acc.fabIdx
+        let inScope := (opOfBits opb).isSome &&
+          (match own with | none => true | some f => f.acl.all (fun e => canonicalPriv e.privilege))
+        if out = "panic" then (st, "ORA panic in allow()")
+        -- an unauthenticated session is never granted anything
+        else if smode = "x" && implAllow then (st, "ORA unauthenticated session granted")
+        -- the accessor acts for the fabric of its session
+        else if (words out).getD 1 "" ≠ toString mode.fabIdx then (st, s!"ORA accessor fabric {(words out).getD 1 ""} session fabric {mode.fabIdx}")
+        else if inScope && grantedB st.fabrics req != implAllow then
+          (st, s!"ORA spec={if grantedB st.fabrics req then "allow" else "deny"} impl={out}")
+        else if mout = out then (st, "ok") else (st, s!"DIS {mout}")
+    | _, _, _, _, _, _, _, _, _, _ => (st, "BAD sq")
+  | ["sr", sfab, gid, endpoint] =>
+    match sfab.toNat?, gid.toNat?, endpoint.toNat? with
+    | some sfab, some gid, some endpoint =>
+      if fabOk sfab && decide (gid ≤ 65535) then
+        let acc := accessorForSession (.group sfab gid) none false
+        let m := isEndpointAccessible st.fabrics acc endpoint
+        let impl := out = "yes"
+        if out = "panic" then (st, "ORA panic in is_endpoint_accessible()")
+        -- the specification on the group id as it is (no narrowing)
+        else if reachesIdB st.fabrics acc endpoint != impl then
+          (st, s!"ORA spec={if reachesIdB st.fabrics acc endpoint then "yes" else "no"} impl={out}")
+        else if m = impl then (st, "ok") else (st, s!"DIS {if m then "yes" else "no"}")
+      else (st, "BAD range")
+    | _, _, _ => (st, "BAD sr")
   | _ => (st, "BAD op")
 
 def run : IO UInt32 := Driver.runLoop ({} : St) step
